@@ -461,7 +461,7 @@ fn rule_text(engine: &str) -> &'static str {
 fn real_vs_stub() -> Value {
     json!({
         "real": ["jammdb (all modules, from /repo's working tree)", "std::fs / memmap2 / fs4 / rustix(libc backend)", "kernel page cache and mmap coherence on tmpfs"],
-        "simulated": ["durable medium (what survives a crash), sector and word tears", "flock (in-process table with flock(2) semantics)", "getrandom (seeded)", "fallocate (executed as sparse ftruncate)", "I/O errors (by plan)"],
+        "simulated": ["durable medium (what survives a crash), sector and word tears", "flock (in-process table with flock(2) semantics)", "getrandom (seeded)", "fallocate (executed as sparse ftruncate)", "I/O errors (by plan)", "time on the threads that execute runs: nanosleep / clock_nanosleep / usleep cost nothing and advance a per-thread clock that clock_gettime reports (jammdb itself has no timers)", "media damage at rest (bytes changed behind the code's back: C12, C06)"],
     })
 }
 
